@@ -260,10 +260,35 @@ Definition norm_edge (x : eatt) : eatt :=
 Definition normalize_edge_orders (g : gr) : gr :=
   LG (gnodes g) (map (fun e : N * N * eatt => let '(a, b, x) := e in (a, b, norm_edge x)) (gedges g)).
 
+(** repaired code (61e730e): with its=True an ITS atom (one that carries typesGH) gets only the hydrogens it has on
+    BOTH sides made explicit, and they are removed from both halves of typesGH *)
+Definition sub_tgh_both (c : Z) (t : tg * tg) : tg * tg :=
+  let '((e, a, h, q), (e2, a2, h2, q2)) := t in ((e, a, h - c, q), (e2, a2, h2 - c, q2)).
+Definition dec_h_its (c : Z) (a : natt) : natt :=
+  NA (a_el a) (a_ar a) (Some (dflt (a_hc a) 0 - c)) (a_ch a) (a_am a)
+     (match a_tgh a with Some t => Some (sub_tgh_both c t) | None => None end).
+Definition hexp_count (its : bool) (a : natt) : Z :=
+  let c0 := dflt (a_hc a) 0 in
+  match its, a_tgh a with
+  | true, Some (_, (_, _, h2, _)) => Z.min c0 h2
+  | _, _ => c0
+  end.
+(** one iteration of the loop of h_to_explicit for either mode ([hexp_step] above is the its=False instance) *)
+Definition hexp_step_gen (its : bool) (st : gr * N) (heavy : N) : gr * N :=
+  let '(g, mx) := st in
+  match label g heavy with
+  | None => st
+  | Some a =>
+      let c := hexp_count its a in
+      if c <=? 0 then st
+      else let '(g1, mx1) := add_hs (Z.to_nat c) heavy (g, mx) in
+           (set_node g1 heavy (if its then dec_h_its c else dec_h c), mx1)
+  end.
+
 (** h_to_explicit(G, nodes, its); [nodes = None] is Python's None *)
 Definition h_to_explicit (g : gr) (nodes : option (list N)) (its : bool) : gr :=
   let ns := match nodes with None | Some [] => node_ids g | Some l => l end in
-  let g1 := fst (fold_left hexp_step ns (copy g, max_id g)) in
+  let g1 := fst (fold_left (hexp_step_gen its) ns (copy g, max_id g)) in
   if its then normalize_edge_orders g1 else g1.
 
 (** * ITSConstruction.ITSGraph(G, H) (balance_its=False, store=False), own minimal copy.
@@ -726,3 +751,7 @@ Definition hc_free (g : gr) : bool := forallb (fun p : N * natt => dflt (a_hc (s
 
 Definition run_its4 (its : gr) (core reindex explicit_h : bool) : tok :=
   L [run_its3 its core reindex explicit_h; tbool (hc_free (if core then get_rc its else its))].
+
+(** the atoms h_to_explicit(G, nodes) visits: all of them for nodes = None or an empty list *)
+Definition exp_nodes (g : gr) (nodes : option (list N)) : list N :=
+  match nodes with None | Some [] => node_ids g | Some l => l end.
